@@ -138,6 +138,32 @@ inline void publish_replay(const std::string& cfg, const std::vector<uint32_t>& 
     *p = 0;
 }
 
+// Optional System member  std::string model_canon(const State&)  = canonical form of the REFERENCE model.  States are
+// de-duplicated on the implementation's canonical form only; two histories that leave the implementation in the same
+// internal state must also leave the reference model in the same state (the model's state is exactly what is observable
+// later), otherwise one of them has diverged although nothing could be observed yet.  With model_canon the explorer
+// remembers the model digest per implementation state and, on a revisit with a different digest, observes the state
+// (whose queries normally expose the difference) and reports reference-diverged if they do not.
+template <class Sys, class St>
+auto model_digest(Sys& sys, const St& st, int) -> decltype(sys.model_canon(st), uint64_t()) {
+    std::string m = sys.model_canon(st);
+    uint64_t h = 1469598103934665603ull;
+    for (unsigned char c : m) h = (h ^ c) * 1099511628211ull;
+    return h | 1;
+}
+template <class Sys, class St>
+uint64_t model_digest(Sys&, const St&, long) {
+    return 0;
+}
+template <class Sys, class St>
+auto model_text(Sys& sys, const St& st, int) -> decltype(sys.model_canon(st)) {
+    return sys.model_canon(st);
+}
+template <class Sys, class St>
+std::string model_text(Sys&, const St&, long) {
+    return "";
+}
+
 template <class Sys>
 Stats explore(Sys& sys, const Options& opt, const std::set<std::string>& skip) {
     Stats S;
@@ -148,7 +174,7 @@ Stats explore(Sys& sys, const Options& opt, const std::set<std::string>& skip) {
         if (it == label_cache.end()) it = label_cache.emplace(op, sig_label(sys.op_name(op))).first;
         return it->second;
     };
-    std::unordered_set<Key, KeyHash> seen;
+    std::unordered_map<Key, uint64_t, KeyHash> seen;  // implementation state -> digest of the reference model (0: not provided)
     struct Node {
         std::vector<uint32_t> hist;
         int depth;  // depth beyond the seed
@@ -160,7 +186,7 @@ Stats explore(Sys& sys, const Options& opt, const std::set<std::string>& skip) {
         vh::at("seed", replay_str(sys, sd));
         auto st = build(sys, sd, sd.size());
         std::string c = sys.canon(*st);
-        if (seen.insert(key_of(c)).second) {
+        if (seen.emplace(key_of(c), model_digest(sys, *st, 0)).second) {
             S.states++;
             vh::at("observe", replay_str(sys, sd));
             sys.observe(*st);
@@ -218,7 +244,20 @@ Stats explore(Sys& sys, const Options& opt, const std::set<std::string>& skip) {
             bool failed = vh::shm()->stat_val[vh::stat_slot("failing_cases", false)] != fails_before;
             if (failed) continue;  // violating state is terminal
             std::string c = sys.canon(*cur);
-            if (seen.insert(key_of(c)).second) {
+            uint64_t md = model_digest(sys, *cur, 0);
+            auto ins = seen.emplace(key_of(c), md);
+            if (!ins.second && md != ins.first->second) {
+                // same implementation state, different reference state
+                vh::at_op((lb + "+observe").c_str());
+                sys.observe(*cur);
+                if (vh::shm()->stat_val[vh::stat_slot("failing_cases", false)] == fails_before) {
+                    vh::at_op(lb.c_str());
+                    vh::fail_here("reference-diverged", "the implementation is in exactly the internal state reached earlier by another history, but the reference model is not: "
+                                                        "now " + model_text(sys, *cur, 0) + " with implementation state " + c.substr(0, 300));
+                }
+                continue;
+            }
+            if (ins.second) {
                 S.states++;
                 vh::at_op((lb + "+observe").c_str());
                 sys.observe(*cur);
